@@ -205,10 +205,8 @@ func sys_cryptoUnit(w []string, st *Stats) (final string, out string, orc string
 		case isNil:
 			out = fmt.Sprintf("nil next=%d", nx)
 			if ml > 0 {
-				orc = "[F23a:rotation-exceeds-epoch] LatestDataKey returned a nil data key although an encryption key is configured (rotation interval longer than the time since the Unix epoch, fresh registry): files will be written in plaintext"
-				if has || int64(rot) <= nowNs-int64(time.Hour) {
-					orc = "[C23-nil-datakey] LatestDataKey returned nil with an encryption key configured"
-				}
+				// (finding F23a, fixed by 497bf84: rotation interval beyond the epoch on a fresh registry)
+				orc = fmt.Sprintf("[C23-nil-datakey] LatestDataKey returned a nil data key although an encryption key is configured (rotation %v, lastCreated %d, nextKeyID %d): files would be written in plaintext", rot, last, next)
 			}
 		case nx != next:
 			out = fmt.Sprintf("new %d next=%d", id, nx)
@@ -413,7 +411,6 @@ type sys_cryptoSess struct {
 	ivSeen   map[string]string // "keyid/iv" → where
 	fails    []string
 	plainHit []string // plaintext sightings in the encrypted DB's files
-	f23a     bool
 }
 
 func (s *sys_cryptoSess) fail(tag, msg string) {
@@ -762,7 +759,6 @@ func sys_cryptoSession(kv map[string]string, st *Stats) (string, []string) {
 		r, _ := strconv.ParseInt(kv["rot"], 10, 64)
 		s.rot = time.Duration(r)
 	}
-	s.f23a = int64(s.rot) > time.Now().UnixNano()
 	switch kvInt(kv, "comp", 0) {
 	case 1:
 		s.comp = options.Snappy
@@ -805,7 +801,7 @@ func sys_cryptoSession(kv map[string]string, st *Stats) (string, []string) {
 			s.fail("C23-wrong-key-mutates", "a failed Open with a wrong key changed files of the database directories")
 		}
 		// ---- master-key rotation as badger/cmd/rotate.go does it (round 1 only)
-		if r == 1 && !s.f23a {
+		if r == 1 {
 			newKey := s.randBytes([]int{16, 24, 32}[s.rng.Intn(3)])
 			opt := badger.KeyRegistryOptions{Dir: qd, ReadOnly: true, EncryptionKey: key, EncryptionKeyRotationDuration: 10 * 24 * time.Hour}
 			kr, err := badger.OpenKeyRegistry(opt)
@@ -826,18 +822,10 @@ func sys_cryptoSession(kv map[string]string, st *Stats) (string, []string) {
 		}
 	}
 	// ---- verdicts on plaintext
-	if len(s.plainHit) > 0 {
-		if s.f23a {
-			s.fails = append(s.fails, fmt.Sprintf("[F23a:rotation-exceeds-epoch] EncryptionKeyRotationDuration=%v exceeds the time since the Unix epoch: no data key is ever created and %d file sightings are plaintext, e.g. %s", s.rot, len(s.plainHit), s.plainHit[0]))
-		} else {
-			for i, h := range s.plainHit {
-				if i < 3 {
-					s.fail("C23-plaintext", h)
-				}
-			}
+	for i, h := range s.plainHit {
+		if i < 3 {
+			s.fail("C23-plaintext", h)
 		}
-	} else if s.f23a {
-		s.fail("C23-f23a-gone", "rotation interval beyond the epoch no longer produces plaintext files: finding F23a does not reproduce (update known_findings)")
 	}
 	// scanner self-test: the plain DB's files must show needles
 	pd := filepath.Join(s.base, "p")
@@ -963,7 +951,7 @@ func sys_genCrypto(rng *rand.Rand, n int, st *Stats) []string {
 		}
 	}
 	for i := 0; i < nsess; i++ {
-		rot := pick(rng, "1", "1", "10d", "1000000000")
+		rot := pick(rng, "1", "1", "10d", "1000000000", "max")
 		ops = append(ops, fmt.Sprintf("session keylen=%d rot=%s comp=%d seed=%d nops=%d", lens[rng.Intn(3)], rot,
 			pick(rng, 0, 0, 1, 2), rng.Intn(1<<30), 120+rng.Intn(120)))
 	}
